@@ -1,6 +1,7 @@
 """
 This file is concerned with the extraction of objects given a path.
 """
+import datetime
 import importlib
 import inspect
 import logging
@@ -64,6 +65,12 @@ def _is_authorized_type(tpe: Type[Any], gctx: EvalMainContext) -> bool:
         tuple,
         type(None),
         PurePosixPath,
+        # The dates and times are hashed like the other scalars (see dds_hash)
+        datetime.datetime,
+        datetime.date,
+        datetime.time,
+        datetime.timedelta,
+        datetime.timezone,
         FunctionType,
         ModuleType,
     ):
